@@ -2,6 +2,7 @@ package value
 
 import (
 	"fmt"
+	"math"
 	"sync"
 )
 
@@ -9,6 +10,10 @@ var WaitGroupClass *Class // ::Std::Sync::WaitGroup
 
 type WaitGroup struct {
 	Native sync.WaitGroup
+	// Go leaves the counter of a sync.WaitGroup negative when it panics,
+	// the counter is tracked here so that such a change can be rejected up front.
+	mu      sync.Mutex
+	counter int
 }
 
 func WaitGroupConstructor(class *Class) Value {
@@ -47,36 +52,47 @@ func (w *WaitGroup) InstanceVariables() *InstanceVariables {
 	return nil
 }
 
-// Go panics when the counter of a WaitGroup drops below zero,
-// the panic is turned into an Elk error.
+// Turns panics of the Go WaitGroup (misuse) into Elk errors.
 func (w *WaitGroup) recoverNegativeCounter(err *Value) {
 	if r := recover(); r != nil {
 		*err = Ref(NewError(OutOfRangeErrorClass, fmt.Sprint(r)))
 	}
 }
 
+// Adds n, which may be negative, to the counter.
+// A change that would drive the counter below zero is rejected
+// and leaves the counter untouched.
 func (w *WaitGroup) Add(n int) (err Value) {
 	defer w.recoverNegativeCounter(&err)
+
+	w.mu.Lock()
+	defer w.mu.Unlock()
+
+	newCounter := w.counter + n
+	if newCounter < 0 || (n < 0 && newCounter > w.counter) {
+		return Ref(NewError(OutOfRangeErrorClass, "sync: negative WaitGroup counter"))
+	}
+	if newCounter > math.MaxInt32 || (n > 0 && newCounter < w.counter) {
+		return Ref(NewError(OutOfRangeErrorClass, "sync: WaitGroup counter is too large"))
+	}
+	w.counter = newCounter
 	w.Native.Add(n)
 	return Undefined
 }
 
 func (w *WaitGroup) Remove(n int) (err Value) {
-	defer w.recoverNegativeCounter(&err)
-	for range n {
-		w.Native.Done()
+	if n == math.MinInt {
+		return Ref(NewError(OutOfRangeErrorClass, "sync: WaitGroup counter is too large"))
 	}
-	return Undefined
+	return w.Add(-n)
 }
 
 func (w *WaitGroup) Start() {
-	w.Native.Add(1)
+	w.Add(1)
 }
 
 func (w *WaitGroup) End() (err Value) {
-	defer w.recoverNegativeCounter(&err)
-	w.Native.Done()
-	return Undefined
+	return w.Add(-1)
 }
 
 func (w *WaitGroup) Wait() {
